@@ -94,7 +94,7 @@ struct Shape {
 }
 
 const DIRS: [&str; 5] = ["/", "/d/", "/../", "/d/../../", "/l/"];
-const N_BASE: u8 = 8; // f, l, .., ../f, "", absolute path inside the jail, l/f and l/s/f (slashes inside the base name)
+const N_BASE: u8 = 10; // f, l, .., ../f, "", absolute path inside the jail, l/f and l/s/f (slashes inside the base name), s.tmp, s.txt
 const N_KIND: u8 = 9;
 
 fn alphabet(full: bool) -> Vec<Shape> {
@@ -102,7 +102,7 @@ fn alphabet(full: bool) -> Vec<Shape> {
     let (dirs, bases, kinds): (Vec<&'static str>, Vec<u8>, Vec<u8>) = if full {
         (DIRS.to_vec(), (0..N_BASE).collect(), (0..N_KIND).collect())
     } else {
-        (vec!["/", "/../", "/l/"], vec![0, 1, 2, 4, 5, 6, 7], vec![0, 1, 5, 6, 7, 8])
+        (vec!["/", "/../", "/l/"], vec![0, 1, 2, 4, 5, 6, 7, 8, 9], vec![0, 1, 5, 6, 7, 8])
     };
     for d in &dirs {
         for b in &bases {
@@ -123,12 +123,14 @@ fn materialise(s: &Shape, jail: &Jail) -> FFile {
         4 => String::new(),
         5 => format!("{}/x", jail.outside_dir()),
         6 => "l/f".to_string(),
-        _ => "l/s/f".to_string(),
+        7 => "l/s/f".to_string(),
+        8 => "s.tmp".to_string(),
+        _ => "s.txt".to_string(),
     };
     let link = |t: &str| FFile::symlink(s.dir, &base, t);
     match s.kind {
         0 => FFile::regular(s.dir, &base, b"DATA"),
-        1 => FFile::dir(s.dir, &base, 0o755),
+        1 => FFile::dir(s.dir, &base, 0o700), // differs from the mode of the directories outside the target
         2 => link("f"),
         3 => link(".."),
         4 => link("../.."),
@@ -162,13 +164,19 @@ fn mechanism(files: &[FFile]) -> &'static str {
     }
 }
 
-fn hostile_case(sub: &str, jail: &Jail, shapes: &[&Shape], rank: u64, acc: &mut Acc) {
+fn hostile_case(sub: &str, jail: &Jail, shapes: &[&Shape], stripped: bool, rank: u64, acc: &mut Acc) {
     acc.evals += 1;
     jail.reset();
     let files: Vec<FFile> = shapes.iter().map(|s| materialise(s, jail)).collect();
     let order: Vec<usize> = (0..files.len()).collect();
-    let x = foreign::package("hostile", &files, foreign::newc_archive(&files, &order), None, false).join().0;
+    // stripped entries address header files by index, so two header files of the same path are both processed
+    let x = if stripped {
+        foreign::package("hostile", &files, foreign::stripped_archive(&files, &order), None, true).join().0
+    } else {
+        foreign::package("hostile", &files, foreign::newc_archive(&files, &order), None, false).join().0
+    };
     let describe = || json!({"entries": files.iter().map(|f| json!({"dirname": f.dir, "basename": f.base.replace(&jail.outside_dir(), "<jail>/outside-dir"), "mode": format!("{:o}", f.mode), "linkto": f.linkto.replace(&jail.outside_dir(), "<jail>/outside-dir")})).collect::<Vec<_>>(),
+                             "archive": if stripped { "stripped entries (by file index)" } else { "newc entries (by name)" },
                              "jail": "<jail>/{cwd (process cwd), t/ (parent of the target 't/target'), outside.txt, outside-dir/keep}"});
     let p = match parse_pkg(&x) {
         Ok(Ok(p)) => p,
@@ -344,7 +352,10 @@ fn benign_specs() -> Vec<BuildSpec> {
         dangling.mode = ModeSpec::Symlink(0o777);
         dangling.symlink = Some("/nonexistent/target".into());
         let top = FileSpec::new("/top-level", Content::Bytes(b"t".to_vec()));
-        s.files = vec![f, d, deep, ln, dangling, top];
+        let tmp = FileSpec::new("/p/settings.tmp", Content::Bytes(b"tmp".to_vec()));
+        let toml = FileSpec::new("/p/settings.toml", Content::Bytes(b"toml".to_vec()));
+        let bak = FileSpec::new("/p/settings.toml.bak", Content::Bytes(b"bak".to_vec()));
+        s.files = vec![f, d, deep, ln, dangling, top, tmp, toml, bak];
         v.push(s);
     }
     v
@@ -357,19 +368,22 @@ pub fn sweeps(ctx: &Ctx) -> Vec<Sweep> {
     // singles over the full alphabet
     {
         let a = full.clone();
-        let n = a.len() as u64;
-        v.push(Sweep::new("hostile-1", format!("every single entry of the alphabet: dirname ∈ {:?} × basename ∈ {{f, l, .., ../f, \"\", absolute path inside the jail, l/f, l/s/f}} × kind ∈ {{regular, directory, symlink → f | .. | ../.. | ../../outside.txt | ../../outside-dir | absolute jail path, fifo}} ({} packages); snapshot of everything outside the target before/after extract; no panic", DIRS, n), n, {
+        let n = a.len() as u64 * 2;
+        v.push(Sweep::new("hostile-1", format!("every single entry of the alphabet: dirname ∈ {:?} × basename ∈ {{f, l, .., ../f, \"\", absolute path inside the jail, l/f, l/s/f, s.tmp, s.txt}} × kind ∈ {{regular, directory, symlink → f | .. | ../.. | ../../outside.txt | ../../outside-dir | absolute jail path, fifo}} ({} packages, each as a newc archive and as stripped index-addressed entries); snapshot of everything outside the target before/after extract; no panic", DIRS, n), n, {
             let jail = Jail::new("h1");
-            move |i, acc| hostile_case("hostile-1", &jail, &[&a[i as usize]], i, acc)
+            move |i, acc| hostile_case("hostile-1", &jail, &[&a[(i / 2) as usize]], i % 2 == 1, i, acc)
         }));
     }
     // ordered pairs
     {
         let a = if ctx.thorough() { full.clone() } else { reduced.clone() };
         let m = a.len() as u64;
-        v.push(Sweep::new("hostile-2", format!("every ordered pair of entries over the {} alphabet ({} entries → {} packages): e.g. a symbolic link followed by a file of the same path or below it, duplicate paths, '..' in directory and base names", if ctx.thorough() { "full" } else { "reduced" }, m, m * m), m * m, {
+        v.push(Sweep::new("hostile-2", format!("every ordered pair of entries over the {} alphabet ({} entries → {} packages): e.g. a symbolic link followed by a file of the same path or below it, duplicate paths, '..' in directory and base names, names that differ only in their extension; each as newc and as stripped archive", if ctx.thorough() { "full" } else { "reduced" }, m, m * m), m * m * 2, {
             let jail = Jail::new("h2");
-            move |i, acc| hostile_case("hostile-2", &jail, &[&a[(i / m) as usize], &a[(i % m) as usize]], i, acc)
+            move |j, acc| {
+                let (i, stripped) = (j / 2, j % 2 == 1);
+                hostile_case("hostile-2", &jail, &[&a[(i / m) as usize], &a[(i % m) as usize]], stripped, j, acc)
+            }
         }));
     }
     if ctx.thorough() {
@@ -379,7 +393,7 @@ pub fn sweeps(ctx: &Ctx) -> Vec<Sweep> {
         let m = core.len() as u64;
         v.push(Sweep::new("hostile-3", format!("every ordered triple over a {}-entry core ({} packages)", m, m * m * m), m * m * m, {
             let jail = Jail::new("h3");
-            move |i, acc| hostile_case("hostile-3", &jail, &[&core[(i / m / m) as usize], &core[(i / m % m) as usize], &core[(i % m) as usize]], i, acc)
+            move |i, acc| hostile_case("hostile-3", &jail, &[&core[(i / m / m) as usize], &core[(i / m % m) as usize], &core[(i % m) as usize]], i % 3 == 1, i, acc)
         }));
     }
     // benign subset
